@@ -609,3 +609,27 @@ package bfe_http2
 //@   ensures[a_rejected_frame_leaves_the_block_state] result0 != nil ==> fr.lastHeaderStream == open
 //@   ensures[the_block_stays_open_until_end_headers] result0 == nil && !fr.AllowIllegalReads && (fType(f) == FrameHeaders || fType(f) == FrameContinuation) ==> (fr.lastHeaderStream == 0 || fr.lastHeaderStream == fStream(f))
 //@   ensures[other_frames_do_not_open_or_close_a_block] result0 == nil && fType(f) != FrameHeaders && fType(f) != FrameContinuation ==> fr.lastHeaderStream == open
+
+// ---- C35: a request whose HEADERS did not end the stream gets a body pipe ----
+// processData treats "open stream without a body pipe" as an internal error (panic); the pipe is created here.
+
+//@ func (*serverConn).newWriterAndRequest
+//@   props C35
+//@   modifies *
+//@   assert[an_open_request_has_a_body_pipe] at "if vv, ok := header[" :: body != nil && body.pipe != nil
+
+// ---- C34 / C33: a change of SETTINGS_INITIAL_WINDOW_SIZE moves every stream window by the difference ----
+
+//@ func (*serverConn).processSettingInitialWindowSize
+//@   props C34
+//@   requires sc != nil
+//@   requires[every_stream_has_its_own_flow] (forall i uint32 :: has(sc.streams, i) ==> sc.streams[i] != nil) && (forall i uint32 :: forall j uint32 :: has(sc.streams, i) && has(sc.streams, j) && i != j ==> sc.streams[i] != sc.streams[j])
+//@   requires[the_sizes_are_valid_window_sizes] 0 <= sc.initialWindowSize && val <= 2147483647
+//@   frame Check pure
+//@   modifies sc.initialWindowSize, any flow.n
+//@   let growth := int32(val) - old(sc.initialWindowSize)
+//@   ensures[on_success_every_stream_window_moved_by_the_difference] result0 == nil ==> (forall i uint32 :: has(sc.streams, i) ==> sc.streams[i].flow.n == old(sc.streams[i].flow.n) + growth)
+//@   ensures[the_new_initial_size_is_recorded] sc.initialWindowSize == int32(val)
+//@   loop 1 invariant[streams_served_so_far_moved_by_the_difference] forall i uint32 :: has(sc.streams, i) && visited(i) ==> sc.streams[i].flow.n == old(sc.streams[i].flow.n) + growth
+//@   loop 1 invariant[the_other_streams_are_untouched_so_far] forall i uint32 :: has(sc.streams, i) && !visited(i) ==> sc.streams[i].flow.n == old(sc.streams[i].flow.n)
+//@   loop 1 invariant[the_difference] growth == sc.initialWindowSize - old(sc.initialWindowSize) && sc.initialWindowSize == int32(val)
